@@ -105,9 +105,9 @@ func init() {
 			"distinct_nontrivial = distinct cases inside the specified territory",
 		Assume: []string{"value texts longer than Lv over other characters are represented by the fixed list only", "unspecified zones (empty attached value, `-=`-style tokens) are executed but not compared"},
 		Run: func(c *RunCtx) {
-			lv := 3
+			lv := 4
 			if c.Tier == "thorough" {
-				lv = 4
+				lv = 5
 			}
 			vals := c01Values(lv)
 			res := c.Res
